@@ -48,30 +48,22 @@ inductive S where
   | ret (v : Option Nat)
   deriving Repr
 
-/-- the three clauses of a `for`, after `for (` -/
+/-- the three clauses of a `for`, after `for (`: a declaration / an expression statement / `;`, then an optional expression and `;`,
+then an optional expression and `)` -/
 def forHead : List Tok → Option (Init × Option Nat × Option Nat × List Tok)
-  | ts =>
-    let init : Option (Init × List Tok) :=
-      match ts with
-      | .d n :: r => some (.decl n, r)
-      | .semi :: r => some (.none, r)
-      | .e n :: .semi :: r => some (.expr n, r)
-      | _ => none
-    match init with
-    | none => none
-    | some (i, r1) =>
-      let cond : Option (Option Nat × List Tok) :=
-        match r1 with
-        | .semi :: r => some (none, r)
-        | .e c :: .semi :: r => some (some c, r)
-        | _ => none
-      match cond with
-      | none => none
-      | some (c, r2) =>
-        match r2 with
-        | .rp :: r => some (i, c, none, r)
-        | .e k :: .rp :: r => some (i, c, some k, r)
-        | _ => none
+  | .d n :: .semi :: .rp :: r => some (.decl n, none, none, r)
+  | .d n :: .semi :: .e k :: .rp :: r => some (.decl n, none, some k, r)
+  | .d n :: .e c :: .semi :: .rp :: r => some (.decl n, some c, none, r)
+  | .d n :: .e c :: .semi :: .e k :: .rp :: r => some (.decl n, some c, some k, r)
+  | .semi :: .semi :: .rp :: r => some (.none, none, none, r)
+  | .semi :: .semi :: .e k :: .rp :: r => some (.none, none, some k, r)
+  | .semi :: .e c :: .semi :: .rp :: r => some (.none, some c, none, r)
+  | .semi :: .e c :: .semi :: .e k :: .rp :: r => some (.none, some c, some k, r)
+  | .e n :: .semi :: .semi :: .rp :: r => some (.expr n, none, none, r)
+  | .e n :: .semi :: .semi :: .e k :: .rp :: r => some (.expr n, none, some k, r)
+  | .e n :: .semi :: .e c :: .semi :: .rp :: r => some (.expr n, some c, none, r)
+  | .e n :: .semi :: .e c :: .semi :: .e k :: .rp :: r => some (.expr n, some c, some k, r)
+  | _ => none
 
 mutual
 def stmt (fuel : Nat) (ts : List Tok) : Option (S × List Tok) :=
